@@ -179,10 +179,18 @@ def main(tier):
         for a in p.pop('aborted', []):
             rep.notes.append(a)
         rep.merge(p)
+    # REAL conformance: every step the real program takes (bin/ddsmt -j 1,
+    # real command) must be a transition of the graph as computed here
+    from .. import conform
+    sd = [x for x in seeds.seeds(rep.tier, rep.seed)
+          if not x[0].startswith('typed')]
+    sd = sd[rep.seed % 6::6] if rep.tier != 'thorough' else sd[::3]
+    conform.graph_conformance(rep, sd, ('hierarchical', 'ddmin'))
     rep.set('mutator_pairs_on_consecutive_edges', len(pairs))
     rep.set('max_depth', maxd)
     rep.set('seeds', len(seeds.seeds(rep.tier, rep.seed)))
-    rep.set('traces_validated_against_impl', 0)
+    rep.set('traces_validated_against_impl',
+            rep.coverage.get('traces_validated_against_impl', 0))
     rep.set('evaluations', rep.coverage.get('transitions', 0))
     rep.set('distinct_nontrivial', rep.coverage.get('states', 0))
     rep.set('exhaustive', True)
@@ -194,7 +202,10 @@ def main(tier):
         'after collect_information, hierarchical single proposals and ddmin '
         'group steps (real TaskGenerator); oracles: no self loop, no '
         'strongly connected component with more than one state, every '
-        'filter/mutations/apply call within a count budget of 60*(n+10)^2')
+        'filter/mutations/apply call within a count budget of 60*(n+10)^2; '
+        'REAL conformance: real bin/ddsmt -j 1 runs (hierarchical and ddmin) '
+        'on a sixth of the seeds (rotated by VERIF_SEED): every accepted step '
+        'must be a transition of the graph computed from its predecessor')
     rep.assume('every sequence of accepted inputs of any run is a path of '
                'this graph (DESIGN 2.8)', 'seed family ddv/seeds.py',
                'state key = harness serialisation of the token tree')
